@@ -62,6 +62,57 @@ let rec sexp_of_obs = function
   | OBFn -> L [A "fn"; A (atom_of_bstr (bstr_of_string "compiled"))]
   | OBDeep -> L [A "deep"]
 
+(* ---- expression compiler (ExprComp): model code, source-level value and machine value ---- *)
+let tok_name = function
+  | TAdd -> "add" | TSub -> "sub" | TMul -> "mul" | TQuo -> "quo" | TRem -> "rem"
+  | TAnd -> "and" | TOr -> "or" | TXor -> "xor" | TAndNot -> "andnot" | TShl -> "shl" | TShr -> "shr"
+  | TLess -> "lt" | TLessEq -> "le" | TGreater -> "gt" | TGreaterEq -> "ge" | TNot -> "not" | TOther -> "other"
+
+let rec cexpr_of (s : Sexp.t) : cexpr =
+  let nat a = C03.nat_of_int (int_of_string a) in
+  match s with
+  | L [A "k"; A i] -> XConst (nat i)
+  | L [A "l"; A i] -> XLocal (nat i)
+  | L [A "bin"; A t; a; b] -> XBin (C15.tok_of_atom t, cexpr_of a, cexpr_of b)
+  | L [A "eq"; a; b] -> XEq (cexpr_of a, cexpr_of b)
+  | L [A "ne"; a; b] -> XNe (cexpr_of a, cexpr_of b)
+  | L [A "un"; A t; a] -> XUn (C15.tok_of_atom t, cexpr_of a)
+  | L [A "and"; a; b] -> XAnd (cexpr_of a, cexpr_of b)
+  | L [A "or"; a; b] -> XOr (cexpr_of a, cexpr_of b)
+  | L [A "cond"; c; a; b] -> XCond (cexpr_of c, cexpr_of a, cexpr_of b)
+  | _ -> failwith ("c02: cexpr " ^ Sexp.to_string s)
+
+let int_of_nat n = let rec go n acc = match n with O -> acc | S m -> go m (acc + 1) in go n 0
+
+let sexp_of_instr (pos : z) (i : xinstr) : Sexp.t =
+  let p = A (string_of_z pos) in
+  match i with
+  | XIConst c -> L [p; A "CONSTANT"; A (string_of_int (int_of_nat c))]
+  | XIGetLocal k -> L [p; A "GETLOCAL"; A (string_of_int (int_of_nat k))]
+  | XIBinOp t -> L [p; A "BINARYOP"; A (tok_name t)]
+  | XIEqual -> L [p; A "EQUAL"]
+  | XINotEqual -> L [p; A "NOTEQUAL"]
+  | XIUnary t -> L [p; A "UNARY"; A (tok_name t)]
+  | XIAndJump t -> L [p; A "ANDJUMP"; A (string_of_z t)]
+  | XIOrJump t -> L [p; A "ORJUMP"; A (string_of_z t)]
+  | XIJumpFalsy t -> L [p; A "JUMPFALSY"; A (string_of_z t)]
+  | XIJump t -> L [p; A "JUMP"; A (string_of_z t)]
+
+let run_expr (args : Sexp.t list) : Sexp.t =
+  match args with
+  | [e; L consts; L locals] ->
+    let e = cexpr_of e in
+    let consts = List.map value_of_sexp consts and locals = List.map value_of_sexp locals in
+    let code = xcompile Z0 e in
+    let rec listing pos = function [] -> [] | i :: r -> sexp_of_instr pos i :: listing (Z.add pos (xisize i)) r in
+    let spec = (match xceval consts locals e with Ok v -> L [A "ok"; sexp_of_value v] | Err _ -> L [A "err"] | _ -> L [A "undefined-behaviour"]) in
+    let mach = (match xmrun (C03.nat_of_int 100000) consts locals code (xcsize code) (XRunning (Z0, [])) with
+        | XRunning (_, [v]) -> L [A "ok"; sexp_of_value v]
+        | XThrown _ -> L [A "err"]
+        | _ -> L [A "stuck"]) in
+    L [A "exprcomp"; L (A "code" :: listing Z0 code); spec; mach]
+  | _ -> failwith "c02: exprcomp"
+
 let run (kind : string) (args : Sexp.t list) : Sexp.t =
   match kind, args with
   | "sem02", [L prog] ->
@@ -69,4 +120,6 @@ let run (kind : string) (args : Sexp.t list) : Sexp.t =
      | PValue o -> L [A "ok"; sexp_of_obs o]
      | PError n -> L [A "err"; A (C13.ocaml_string_of n)]
      | PFuel -> L [A "fuel"])
+  | "exprcomp", _ -> run_expr args
   | _ -> failwith "c02: bad case"
+
